@@ -59,6 +59,141 @@ def run(ctx):
     handlers(ctx)
     imm_table(ctx)
     shift_amount(ctx)
+    ring(ctx)
+
+
+# architectural results of the ring-operation forms, modulo 2^K (d = destination operand, s = source, c = carry in)
+RING_REF = {
+    "Add": lambda d, s, c: d + s, "Sub": lambda d, s, c: d - s, "And": lambda d, s, c: d & s, "Or": lambda d, s, c: d | s,
+    "Xor": lambda d, s, c: d ^ s, "Adc": lambda d, s, c: d + s + c, "Sbb": lambda d, s, c: d - s - c,
+    "Inc": lambda d, s, c: d + 1, "Dec": lambda d, s, c: d - 1, "Neg": lambda d, s, c: -d, "Not": lambda d, s, c: ~d,
+    "Mov": lambda d, s, c: s, "Movzx": lambda d, s, c: s, "Movsxd": lambda d, s, c: s, "Movsx": lambda d, s, c: s,
+    "Movups": lambda d, s, c: s, "Movd": lambda d, s, c: s, "Movq": lambda d, s, c: s, "Xorps": lambda d, s, c: d ^ s,
+    "Imul": lambda d, s, c: d * s,
+}
+UNARY = ("Inc", "Dec", "Neg", "Not")
+
+
+def operand_of_leaf(facts, x):
+    """operand index a value leaf belongs to, or None"""
+    if x[0] == "reg":
+        r = x[2]
+        if r[0] == "opreg":
+            return r[1]
+        return None
+    if x[0] == "mem":
+        a = U.strip(x[2])
+        if a[0] == "addr":
+            m_ = a[1]
+            if m_[0] == "opmem":
+                return m_[1]
+            if m_[0] == "agg":
+                for sub in H.leaves(m_):
+                    if sub[0] == "field" and sub[1][0] == "opmem":
+                        return sub[1][1]
+        return None
+    if x[0] == "opimm":
+        return x[1]
+    return None
+
+
+def ring(ctx):
+    """C01.ring: for the ring-operation forms the written value is congruent to the architectural result modulo 2^K for
+    every residue of the operands (congruence abstraction; decides the low K bits of the result for all operand values)."""
+    from .. import congruence as CG
+    ck, facts, O, D, hm = ctx.check, ctx.facts, ctx.oracle, ctx.dispatch, ctx.hmodel
+    impl = D.implemented()
+    n = und = 0
+    for code in sorted(impl):
+        oc = O["codes"][code]
+        mn = oc["mnemonic"]
+        if mn not in RING_REF or not hm.producible(code):
+            continue
+        nops = len(oc["kinds"])
+        if mn == "Imul" and nops == 1:
+            continue
+        ref = RING_REF[mn]
+        where = U.handler_where(facts, D, code)
+        for shape in hm.shapes(code):
+            inst = "Code=%s/%s" % (code, shape[0])
+            classes = [{"CF": 0}, {"CF": 1}] if mn in ("Adc", "Sbb") else [None]
+            bad = None
+            decided = 0
+            why_und = None
+            for cls in classes:
+                outs, I = hm.run(code, shape, flags=cls)
+                rets = [o for o in outs if o.kind == "return" and not is_err(o)]
+                for o in rets:
+                    ws = [e for e in o.path.events if (e[0] == "reg_write" and U.reg_name(facts, e[2]) == "op0")
+                          or (e[0] == "mem_write" and e[1] != "bytes" and operand_of_leaf(facts, ("mem", 0, e[2], 0)) == 0)]
+                    if len(ws) != 1:
+                        continue
+                    v = ws[0][3]
+                    lv = [x for x in H.leaves(v) if x[0] in ("reg", "mem", "opimm")]
+                    roles = {}
+                    okl = True
+                    for x in lv:
+                        k = operand_of_leaf(facts, x)
+                        if k is None:
+                            okl = False
+                        roles[x] = k
+                    if not okl:
+                        why_und = "value depends on a non-operand leaf"
+                        continue
+                    # Paths whose conditions constrain the operand values cannot be enumerated over all residues --
+                    # unless every success path of this shape writes the very same value term (the conditions then only
+                    # select flag outcomes): whatever path is taken, that term is what gets written.
+                    if any(any(H.mentions(c[0], x) for x in lv) for c in o.path.conds):
+                        allv = set()
+                        for o2 in rets:
+                            w2 = [e for e in o2.path.events if (e[0] == "reg_write" and U.reg_name(facts, e[2]) == "op0")
+                                  or (e[0] == "mem_write" and e[1] != "bytes" and operand_of_leaf(facts, ("mem", 0, e[2], 0)) == 0)]
+                            allv.add(w2[0][3] if len(w2) == 1 else None)
+                        if allv != {v}:
+                            why_und = "data-dependent value (%d distinct terms)" % len(allv)
+                            continue
+                    src_idx = 1 if nops >= 2 else 0
+                    if mn == "Imul" and nops == 3:
+                        src_idx = None
+                    try:
+                        for a in range(CG.MOD):
+                            for b in range(CG.MOD):
+                                for c3 in (range(CG.MOD) if (mn == "Imul" and nops == 3) else (0,)):
+                                    env = {}
+                                    for x, k in roles.items():
+                                        val = a if k == 0 else (b if k == 1 else c3)
+                                        env[x] = val
+                                        env[A.W(x, 64)] = val
+                                    got = CG.eval_mod(v, env, I, o.path)
+                                    cin = cls["CF"] if cls else 0
+                                    if mn == "Imul" and nops == 3:
+                                        want = (b * c3) % CG.MOD
+                                    elif mn in UNARY:
+                                        want = ref(a, 0, cin) % CG.MOD
+                                    else:
+                                        want = ref(a, b, cin) % CG.MOD
+                                    if got != want:
+                                        bad = bad or "result = %d (mod %d) for d=%d s=%d%s, architecture %d" % (
+                                            got, CG.MOD, a, b, (" cf=%d" % cin) if cls else "", want)
+                                        raise StopIteration
+                        decided += 1
+                    except CG.Undecided as e:
+                        why_und = str(e)
+                    except StopIteration:
+                        pass
+            if bad:
+                n += 1
+                ck.violation("C01.ring", inst, bad, where=where, witness={"modulus": CG.MOD},
+                             what="the value written is not the architectural result (low bits wrong for every operand pair in this residue class)")
+            elif decided:
+                n += 1
+                ck.ok("C01.ring", inst, CG.MOD * CG.MOD)
+            else:
+                und += 1
+                ck.undecided_("C01.ring", inst, why_und or "no single destination write")
+    ck.cov["ring_forms_decided"] = n
+    ck.cov["ring_forms_undecided"] = und
+    ck.floor("ring forms decided", n, 150)
 
 
 def shift_amount(ctx):
